@@ -79,12 +79,50 @@ def battery():
             continue
         lines.append(("p", t)); meta.append({"kind": "doc", "deep": False})
         lines.append(("tp", t)); meta.append({"kind": "toml-doc", "deep": False})
+    # documents whose headers come in every order (a deep header first makes its super-tables implicit; they are re-opened
+    # later, between siblings): under preserve_order the iteration order of toml::Table must be the DOCUMENT order (order of
+    # first mention at each level), which the reference interpreter computes independently
+    import itertools
+
+    def po_dump(t):
+        parts = []
+        for k, n in t.items:
+            parts.append(k.hex() + "=" + ("i:%d" % n.v[1] if isinstance(n, G.Val) else po_dump(n)))
+        return "{" + ",".join(parts) + "}"
+    trees = [
+        [(b"p",), (b"p", b"a"), (b"p", b"a", b"b")],
+        [(b"a", b"b", b"c"), (b"a", b"x"), (b"a", b"y"), (b"a", b"z"), (b"a", b"b")],
+        [(b"p",), (b"p", b"a", b"b"), (b"q",), (b"p", b"c"), (b"p", b"a")],
+        [(b"server", b"tls"), (b"client",), (b"database",), (b"logging",), (b"server",)],
+        [(b"t", b"u", b"v", b"w"), (b"t",), (b"t", b"u"), (b"t", b"u", b"v")],
+    ]
+    for paths in trees:
+        perms = list(itertools.permutations(range(len(paths))))
+        if len(perms) > 40:
+            perms = rng.sample(perms, 40)
+        for perm in perms:
+            st = []
+            for hi in perm:
+                st.append(("hdr", list(paths[hi])))
+                for j in range(rng.choice([0, 1, 2])):
+                    st.append(("kv", [b"k%d%d" % (hi, j)], ("i", j)))
+            v = G.ref_eval(st)
+            if v[0] != "valid":
+                continue
+            t = G.Renderer(rng, plain=True).document(st)
+            lines.append(("tp", t)); meta.append({"kind": "header-order", "deep": False, "expect_order": po_dump(v[1])})
     for n in (10, 78, 79, 80, 81, 120):
         t = b"a = " + b"[" * n + b"]" * n + b"\n"
         lines.append(("p", t)); meta.append({"kind": "nesting", "deep": n >= 80})
         t = b"a = " + b"{k = " * n + b"1" + b"}" * n + b"\n"
         lines.append(("p", t)); meta.append({"kind": "nesting", "deep": n >= 80})
         lines.append(("tp", t)); meta.append({"kind": "nesting", "deep": n >= 80})
+    # key paths around and beyond the limit: dotted key, [header], [[header]], dotted key inside an inline table
+    for n in (10, 78, 79, 80, 81, 120):
+        path = b".".join(b"k%d" % i for i in range(n))
+        for t in (path + b" = 1\n", b"[" + path + b"]\nx = 1\n", b"[[" + path + b"]]\nx = 1\n", b"a = { " + path + b" = 1 }\n"):
+            lines.append(("p", t)); meta.append({"kind": "key-path", "deep": n >= 78})
+            lines.append(("tp", t)); meta.append({"kind": "key-path", "deep": n >= 78})
     for _ in range(600):
         parts = []
         used = set()
@@ -131,11 +169,16 @@ def compare_cfg(name, feats, base, got, m):
     if got == "PANIC":
         return "panic under configuration %s" % name
     if "te_unbounded" in feats and m["deep"]:
-        return None                       # documented exception
+        # documented exception: `unbounded` removes the recursion limit — every one of these (valid) documents is then accepted
+        if got.split(" ")[0] != "ok":
+            return "a valid document nested beyond the limit is rejected under %s, which is documented to remove the limit" % name
+        return None
     if got.split(" ")[0] != base.split(" ")[0]:
         return "verdict differs under %s: %s vs default %s" % (name, got.split(" ")[0], base.split(" ")[0])
     if field(got, "eq") == "false":
         return "a table rebuilt with its entries inserted in the opposite order is != the original under %s" % name
+    if "t_po" in feats and m.get("expect_order") and got.startswith("ok ") and field(got, "order") != m["expect_order"]:
+        return "under %s toml::Table does not iterate in document order: %s, expected %s" % (name, field(got, "order"), m["expect_order"])
     for f in ("tree", "print", "sorted", "order", "eq"):
         a, b = field(base, f), field(got, f)
         if a is None or b is None or a == "skip" or b == "skip":
